@@ -477,4 +477,5 @@ func (e *engine) runC12() {
 		e.encCase(b, encCtxs[t%len(encCtxs)], e.rng.Bytes(e.rng.Intn(40)), "random-recipient", bptr(ok))
 		e.encCase(e.rng.Bytes(e.rng.Intn(70)), encCtxs[0], []byte("m"), "recipient-length", nil)
 	}
+	e.runC12Norm(keys) // contexts related by a normalisation never decrypt each other's messages (c13b.go, harness/norm)
 }
